@@ -338,7 +338,7 @@ func (m *MmsTables) buildFullCompactPlan(n int64, toLevel uint16) []*CompactGrou
 			if m.isClosed() || m.isCompMergeStopped() {
 				return nil
 			}
-			if f.(*tsspFile).ref == 0 {
+			if atomic.LoadInt32(&f.(*tsspFile).ref) == 0 {
 				panic("file closed")
 			}
 
